@@ -370,7 +370,7 @@ impl Sys {
 
 impl System for Sys {
     type Ev = JEv;
-    type Key = (VerifMac, usize, usize, u8);
+    type Key = (VerifMac, usize, usize, u8, String);
 
     fn enabled(&self) -> Vec<JEv> {
         let mut v = vec![];
@@ -446,7 +446,7 @@ impl System for Sys {
         if let VerifMacState::Joined(ref mut j) = s.state {
             j.fcnt_up = j.fcnt_up.min(1);
         }
-        (s, self.attempts, self.earlier.len().min(1), self.creds)
+        (s, self.attempts, self.earlier.len().min(1), self.creds, format!("{:?}", self.nb.as_ref().map(|n| n.st())))
     }
 
     fn alive(&self) -> bool {
